@@ -78,6 +78,22 @@ def copy_dominates(func_key, var, require_copy=True):
         items.append(("frame-dominated[%s@%s]" % (var, txt[:40]), cl is not None and ln > cl,
                       "the write `%s` through %s happens after the deep copy" % (txt, var), "line %d, copy at %s" % (ln, cl)))
     if cl is not None:
+        # nothing reachable through P may be bound to another name before the copy (it would alias the caller's object)
+        alias = []
+        ok_calls = ("get_function_type", "get_docstring", "isinstance", "type", "len", "getsource", "_inspect", "ast.parse", "parse")
+        for st in fn.body:
+            if getattr(st, "lineno", 10 ** 9) >= cl:
+                break
+            if isinstance(st, (ast.Assign, ast.AnnAssign, ast.AugAssign)) and getattr(st, "value", None) is not None:
+                for m in ast.walk(st.value):
+                    if isinstance(m, ast.Name) and m.id == var:
+                        # allowed only as the argument of a whitelisted pure call
+                        inside_ok = any(isinstance(c, ast.Call) and ast.unparse(c.func) in ok_calls and any(m in list(ast.walk(a)) for a in c.args)
+                                        for c in ast.walk(st.value))
+                        if not inside_ok:
+                            alias.append((st.lineno, ast.unparse(st).split("\n")[0][:80]))
+        items.append(("frame-no-alias-before-copy[%s]" % var, not alias,
+                      "no part of %s is bound to another name before the deep copy" % var, alias))
         early = [(ln, f) for ln, f in passes_to_callees(fn, var, cl)]
         items.append(("frame-no-early-escape[%s]" % var, not early, "%s is not handed to another function before it is copied" % var, early))
     return items
